@@ -94,8 +94,11 @@ static size_t list_dir(const char *d, char *out, size_t cap)
 }
 
 /* ------------------------------------------------------------------ object table */
-enum { T_POOL, T_WRITER, T_READER, T_MERGER, T_SORTER, T_FILESET, T_ITER, T_NTYPES };
-static const char *TNAME[] = {"pool", "writer", "reader", "merger", "sorter", "fileset", "iter"};
+enum { T_POOL, T_WRITER, T_READER, T_MERGER, T_SORTER, T_FILESET, T_ITER, T_USOURCE, T_NTYPES };
+static const char *TNAME[] = {"pool", "writer", "reader", "merger", "sorter", "fileset", "iter", "usersource"};
+/* user-defined source: its closure is heap memory that only the source_free callback releases (the library must call it exactly once, at mtbl_source_destroy) */
+static uint64_t g_usrc_free_calls;
+static void usrc_free_cb(void *clos) { g_usrc_free_calls++; free(clos); }
 #define MAXOBJ 96
 typedef struct obj {
 	int type, live;
@@ -182,6 +185,7 @@ static void obj_destroy(hist_t *h, int i)
 		life(o->sorter_state == 0 ? (o->sorter_adds ? "life.sorter.destroyed_before_iterating" : "life.sorter.destroyed_unused") : o->sorter_state == 1 ? "life.sorter.destroyed_after_iteration" : "life.sorter.destroyed_after_reported_failure");
 		mtbl_sorter_destroy(&s); free(o->mc); break; }
 	case T_FILESET: { struct mtbl_fileset *f = o->p; mtbl_fileset_destroy(&f); free(o->mc); break; }
+	case T_USOURCE: { struct mtbl_source *us = o->p; uint64_t before = g_usrc_free_calls; mtbl_source_destroy(&us); statf(1, "life.usersource.free_callback_calls_at_destroy.%d", (int)(g_usrc_free_calls - before)); break; }
 	case T_ITER: { struct mtbl_iter *it = o->p; life(o->drained == 2 ? "life.iter.destroyed_drained" : o->drained == 1 ? "life.iter.destroyed_half_drained" : "life.iter.destroyed_untouched"); mtbl_iter_destroy(&it); break; }
 	}
 	o->live = 0;
@@ -262,7 +266,15 @@ static void step(hist_t *h, rng_t *r, int thorough)
 		if (i < 0) { mtbl_merger_destroy(&m); free(mc); return; }
 		h->o[i].mc = mc;
 		int k = rndn(r, 5);
-		for (int j = 0; j < k; j++) { int ri = pick_live(h, r, T_READER); if (ri < 0) break; int dup = 0; for (int d = 0; d < h->o[i].ndep; d++) if (h->o[i].dep[d] == ri) dup = 1; if (dup) continue; mtbl_merger_add_source(m, mtbl_reader_source(h->o[ri].p)); obj_dep(h, i, ri); }
+		/* sometimes a user-defined source (closure owned by its free callback) is created and joins the merger as well */
+		if (rndn(r, 3) == 0) {
+			usrc_t *u = xcalloc(1, sizeof *u); u->m = h->tmodel[rndn(r, h->ntables)];     /* entries shared with the fixture, not owned */
+			struct mtbl_source *us = mtbl_source_init(usrc_iter, usrc_get, usrc_get_prefix, usrc_get_range, usrc_free_cb, u);
+			int ui = obj_new(h, T_USOURCE, us);
+			if (ui < 0) mtbl_source_destroy(&us);
+			else { mtbl_merger_add_source(m, us); obj_dep(h, i, ui); }
+		}
+		for (int j = 0; j < k; j++) { int ri = pick_live(h, r, rndn(r, 4) == 0 ? T_USOURCE : T_READER); if (ri < 0) break; int dup = 0; for (int d = 0; d < h->o[i].ndep; d++) if (h->o[i].dep[d] == ri) dup = 1; if (dup) continue; mtbl_merger_add_source(m, h->o[ri].type == T_USOURCE ? (const struct mtbl_source *)h->o[ri].p : mtbl_reader_source(h->o[ri].p)); obj_dep(h, i, ri); }
 	} else if (op < 52) {                                       /* iterator on reader / merger / fileset */
 		int t = rndn(r, 3) == 0 ? T_MERGER : rndn(r, 2) ? T_READER : T_FILESET;
 		int oi = pick_live(h, r, t); if (oi < 0) return;
